@@ -560,41 +560,77 @@ pub fn run_sersrv(tokens: &[&str]) -> String {
     out
 }
 
-pub fn run_sere2e(tokens: &[&str]) -> String {
-    if tokens.len() < 4 {
-        return "ERR sere2e".into();
+/// `E2E <tcp|rtu|ser> <slave> <op> ; <op> ...`   op = call|typed <request> <service reply>
+/// The real asynchronous client against the real server of the same transport: Modbus TCP over a loopback socket
+/// (`client::tcp::connect_slave` / `server::tcp::Server`), RTU over a loopback socket (`client::rtu::attach_slave` /
+/// `server::rtu_over_tcp::Server`) or RTU over a pty (`server::rtu::Server`).
+pub fn run_e2e(tokens: &[&str]) -> String {
+    if tokens.len() < 5 {
+        return "ERR e2e".into();
     }
-    let Ok(slave) = tokens[0].parse::<u8>() else {
+    let proto = tokens[0].to_string();
+    let Ok(slave) = tokens[1].parse::<u8>() else {
         return "ERR slave".into();
     };
     let mut ops: Vec<(Request<'static>, bool)> = vec![];
     let mut table: Vec<crate::SvcReply> = vec![];
-    for op in tokens[1..].split(|t| *t == ";") {
+    for op in tokens[2..].split(|t| *t == ";") {
         match op {
             [h @ ("call" | "typed"), rq, sv] => {
                 let (Some(r), Some(mut s)) = (parse_req(rq), crate::parse_svc(sv)) else {
-                    return "ERR sere2eop".into();
+                    return "ERR e2eop".into();
                 };
                 if s.len() != 1 {
-                    return "ERR sere2esvc".into();
+                    return "ERR e2esvc".into();
                 }
                 ops.push((r, *h == "typed"));
                 table.push(s.remove(0));
             }
-            _ => return "ERR sere2eop".into(),
+            _ => return "ERR e2eop".into(),
         }
     }
     let rt = tokio::runtime::Builder::new_current_thread().enable_all().build().unwrap();
     let calls: Arc<Mutex<Vec<String>>> = Arc::new(Mutex::new(vec![]));
     let notify = Arc::new(tokio::sync::Notify::new());
     let out = rt.block_on(async {
-        let Ok((master, slave_end)) = tokio_serial::SerialStream::pair() else {
-            return "ERR pty".to_string();
-        };
         let svc = SerService { table, idx: Default::default(), calls: calls.clone(), notify: notify.clone() };
-        let server = tokio_modbus::server::rtu::Server::new(slave_end);
-        let task = tokio::spawn(async move { server.serve_forever(svc).await });
-        let mut ctx = tokio_modbus::client::rtu::attach_slave(master, Slave(slave));
+        let (mut ctx, task): (tokio_modbus::client::Context, tokio::task::JoinHandle<()>) = if proto == "ser" {
+            let Ok((master, slave_end)) = tokio_serial::SerialStream::pair() else {
+                return "ERR pty".to_string();
+            };
+            let server = tokio_modbus::server::rtu::Server::new(slave_end);
+            let task = tokio::spawn(async move {
+                let _ = server.serve_forever(svc).await;
+            });
+            (tokio_modbus::client::rtu::attach_slave(master, Slave(slave)), task)
+        } else {
+            let listener = tokio::net::TcpListener::bind("127.0.0.1:0").await.unwrap();
+            let addr = listener.local_addr().unwrap();
+            let slot = Arc::new(Mutex::new(Some(svc)));
+            let p2 = proto.clone();
+            let task = tokio::spawn(async move {
+                let on_connected = move |stream: tokio::net::TcpStream, _a: std::net::SocketAddr| {
+                    let s = slot.lock().unwrap().take();
+                    async move { Ok::<_, io::Error>(s.map(|s| (s, stream))) }
+                };
+                if p2 == "tcp" {
+                    let _ = tokio_modbus::server::tcp::Server::new(listener).serve(&on_connected, |_e| {}).await;
+                } else {
+                    let _ = tokio_modbus::server::rtu_over_tcp::Server::new(listener).serve(&on_connected, |_e| {}).await;
+                }
+            });
+            if proto == "tcp" {
+                match tokio_modbus::client::tcp::connect_slave(addr, Slave(slave)).await {
+                    Ok(c) => (c, task),
+                    Err(e) => return format!("CONNECT:{}", show_kind(e.kind())),
+                }
+            } else {
+                match tokio::net::TcpStream::connect(addr).await {
+                    Ok(s) => (tokio_modbus::client::rtu::attach_slave(s, Slave(slave)), task),
+                    Err(e) => return format!("CONNECT:{}", show_kind(e.kind())),
+                }
+            }
+        };
         let mut outs = vec![];
         let mut seen = 0usize;
         for (req, typed) in &ops {
